@@ -6,6 +6,7 @@ ids="$@"; [ -z "$ids" ] && ids=$(ls seeded | grep -v INDEX)
 fail=0
 for id in $ids; do
   prop=$(python3 -c "import json;print(json.load(open('seeded/$id/meta.json'))['property'])")
+  if python3 -c "import json,sys;sys.exit(0 if json.load(open('seeded/$id/meta.json')).get('obsolete') else 1)"; then echo "$id: obsolete (no longer breaks the property on the repaired tree), skipped"; continue; fi
   if ! git -C /repo diff --quiet; then echo "/repo has local changes"; exit 2; fi
   if ! git -C /repo apply /verif/seeded/$id/patch.diff 2>/dev/null; then echo "$id: patch does not apply to /repo HEAD"; fail=1; continue; fi
   out=$(timeout 1800 ./check $prop quick 2>&1 < /dev/null); rc=$?
